@@ -11,7 +11,29 @@ def handle (op : String) (a : Json) : Except String Json := do
     let lib : Option Geom ← match fldOpt a "lib" with
       | some j => do pure (some (← getGeom j))
       | none => pure none
-    return optRaiseJ geomJ (bufferGeometry (fun _ _ _ => lib) g (← fldRat a "tb") (← fldRat a "fb"))
+    -- the buffers either as the values the call ends up with (`tb`, `fb`) or as the caller wrote
+    -- them: positional values `pos` and keyword values `kw`, bound by `boundBuffers bufferSig`
+    match fldOpt a "pos" with
+    | none =>
+      return optRaiseJ geomJ (bufferGeometry (fun _ _ _ => lib) g (← fldRat a "tb") (← fldRat a "fb"))
+    | some pj =>
+      let pos ← getRatList pj
+      let kw ← (← fldArr a "kw").mapM (fun j => do
+        match ← getArr j with
+        | [n, v] => pure (← n.getStr?, ← getRat v)
+        | _ => throw "expected [name, value]")
+      match boundBuffers bufferSig pos kw with
+      | none => return raiseJ .type
+      | some (tb, fb) => return optRaiseJ geomJ (bufferGeometry (fun _ _ _ => lib) g tb fb)
+  | "bind" =>
+    let pos ← getRatList (← fld a "pos")
+    let kw ← (← fldArr a "kw").mapM (fun j => do
+      match ← getArr j with
+      | [n, v] => pure (← n.getStr?, ← getRat v)
+      | _ => throw "expected [name, value]")
+    match boundBuffers bufferSig pos kw with
+    | none => return raiseJ .type
+    | some (tb, fb) => return valJ (ratsJ [tb, fb])
   | "valid" =>
     return valJ (boolJ (valid (← getGeom (← fld a "g"))))
   | "shapely_post" =>
@@ -32,7 +54,15 @@ def handle (op : String) (a : Json) : Except String Json := do
       return valJ (Json.mkObj [
         ("valid", boolJ (valid r)), ("poly", boolJ isPoly), ("bounds", boundsJ rb),
         ("post", boolJ (bufferPostTol tol b tb fb rb)), ("post_strict", boolJ (bufferPost b tb fb rb)),
-        ("shortfall", ratsJ (shortfall b tb fb rb))])
+        ("shortfall", ratsJ (shortfall b tb fb rb)),
+        ("shortfall_net", ratsJ (shortfallTol tol b tb fb rb)),
+        ("offcap", arrJ ((offCap g b tb fb (← fldRat a "mu")).map boolJ))])
+  | "offcap" =>
+    -- per side of the bounds: is the extreme attained away from the ends of open lines
+    let g ← getGeom (← fld a "g")
+    let b ← geomBounds g
+    return valJ (Json.mkObj [("offcap", arrJ ((offCap g b (← fldRat a "tb") (← fldRat a "fb") (← fldRat a "mu")).map boolJ)),
+      ("bounds", boundsJ b)])
   | "pipeline_args" =>
     -- the straight-line skeleton of `buffer_shapely_geometry` on a probe point `(px, py)` of the
     -- input, a probe point `(qx, qy)` of GEOS's buffer, its largest x `qm` and the observed upper
